@@ -138,6 +138,21 @@ def check_config(cfg, w, rep):
         if v.rule in G:
             rep.violation("g:%s" % k, "a file could be published under an address that is not the digest of its bytes — " + v.msg,
                           loc=v.loc, config=cfg, rule="g/" + v.rule, witness=v.witness)
+    if "link_to" in cfg:
+        # with link_to the published entry is a symlink to the caller's file under the digest the linker computed while reading it:
+        # that digest covers exactly the bytes read, all of them (C19 b), and a failed symlink is accepted only if the address
+        # really holds content (C19 d)
+        from . import c19
+        sub = Report("C19")
+        c19.check_config(cfg, w, sub)
+        GL = ("b-hashes-what-it-reads", "b-input-slice", "b-consumes-all", "d-existing-destination")
+        for (c_, rule, k, desc, ok) in sub.obligations:
+            if rule in GL and ok:
+                rep.ob(cfg, "g/" + rule, k, desc)
+        for k, v in sub.violations.items():
+            if v.rule in GL:
+                rep.violation("g:%s" % k, "a link could be published under an address that is not the digest of the file it points to — " + v.msg,
+                              loc=v.loc, config=cfg, rule="g/" + v.rule, witness=v.witness)
 
     # ---- (e) a failed publication is an error unless the destination is shown to exist ----
     for p in w.roles.content_closes:
@@ -229,6 +244,66 @@ def check_close(cfg, w, rep, lf):
             rep.violation("e-async:%s" % key,
                           "`%s`: the close closure can report %s — success not tied to persist succeeding or to the destination existing" % (
                               short(lf.path), sorted(set(map(str, tied)))), loc=span_str(t.span), config=cfg, rule="e-failed-publication")
+
+
+def check_trim_fn(cfg, w, rep, g):
+    """Inside the trimming function: with a mapping present, a success return is reached only after set_len(<written length>)
+    or on the edge where the written length is NOT below the mapped length (`pos < mapped` false) — no further exemption such
+    as "nothing was written" (an untouched pre-allocated file is all padding)."""
+    prog = w.prog
+    body = g.body
+    cf = prog.cfg(body)
+    key = fn_key(g)
+    trims = {e.blk for e in w.own_effects(g) if e.kind == "HandleMut" and e.body is body and e.term.callee.path.endswith("set_len")}
+    if not trims:
+        return
+    # the mapping is present: Some edge of the switch on the Option<MmapMut> parameter
+    somes = []
+    lts = []
+    for bb in body.blocks:
+        tu = bb.term
+        if bb.cleanup or tu.k != "switch" or tu.discr.place is None:
+            continue
+        for o in prog.resolve_pl(body, tu.discr.place, IDENT):
+            if o.kind == "discr":
+                ty = body.local_ty(o.info.place.local)
+                if "MmapMut" in ty and "Option" in ty:
+                    somes.append(switch_target(tu, VIDX["Some"]))
+            if o.kind == "binop" and o.info.j["op"] in ("Lt", "Ge", "Le", "Gt"):
+                lts.append((bb.i, tu, o))
+    if not somes:
+        return
+    # allowed bypass: the single comparison between the written length and the mapping's length, on its "not below" edge
+    allowed = set()
+    n_cmp = 0
+    for (bi, tu, o) in lts:
+        terms = [w.sym.of_operand(body, x) for x in o.info.ops]
+        has_len = any(t_[0] == "call" and t_[1].endswith("::len") for t_ in terms)
+        has_param = any(t_[0] == "param" for t_ in terms)
+        if has_len and has_param:
+            n_cmp += 1
+            opn = o.info.j["op"]
+            pos_first = terms[0][0] == "param"
+            below_true = (opn == "Lt" and pos_first) or (opn == "Gt" and not pos_first)
+            below_false_val = 0 if below_true else 1
+            if opn in ("Lt", "Gt"):
+                allowed.add((bi, switch_target(tu, 0 if below_true else 1)))
+            elif opn in ("Ge", "Le"):
+                ge_true = (opn == "Ge" and pos_first) or (opn == "Le" and not pos_first)
+                allowed.add((bi, switch_target(tu, 1 if ge_true else 0)))
+    succ = [rd for rd in ret_defs(prog, body) if rd.cls in ("success", "unknown")]
+    reach = set()
+    for st_ in somes:
+        reach |= cf.reachable(st_, cut_nodes=trims, cut_edges=allowed)
+    bad = [rd for rd in succ if rd.blk in reach]
+    if bad or n_cmp != 1:
+        rep.violation("f-trim-fn:%s" % key,
+                      "`%s` can leave a mapped (pre-sized) staging file untrimmed for a reason other than 'everything declared was written' "
+                      "(return at %s): the published file would carry zero padding under the data's address" % (
+                          short(g.path), blk_loc(body, bad[0].blk) if bad else "?"), loc=blk_loc(body, bad[0].blk) if bad else body.loc(),
+                      config=cfg, rule="f-trim-before-publish")
+    else:
+        rep.ob(cfg, "f-trim-before-publish", key + ".complete", "`%s` skips set_len only when the written length is not below the mapped length" % short(g.path))
 
 
 def check_staging_is_sequential(cfg, w, rep):
@@ -331,6 +406,9 @@ def check_preallocation(cfg, w, rep):
                         ok = True
             if ok:
                 rep.ob(cfg, "f-trim-before-publish", fn_key(lf), "`%s` trims the mapped temp file to the written length (and checks the result) before persist" % short(lf.path))
+                for bb, bblk, tt, gg in prog.local_calls(lf):
+                    if bb is b and any(x.kind == "HandleMut" for x in w.own_effects(gg)) and cf.dominates(bblk.i, e.blk):
+                        check_trim_fn(cfg, w, rep, gg)
             else:
                 rep.violation("f-trim:%s" % fn_key(lf), "`%s` publishes a possibly pre-allocated temp file without first trimming it to the bytes written" % short(lf.path),
                               loc=e.loc(), config=cfg, rule="f-trim-before-publish")
